@@ -412,9 +412,11 @@ fn marker(cmd: CmdId) -> impl FnOnce(&mut World) + Send + 'static
 }
 
 /// Issues one op through `c`: records it, queues its marker, queues its own command(s).
-pub fn issue_op(c: &mut Commands, op: Op, cmd: CmdId, top: bool)
+pub fn issue_op(c: &mut Commands, op: Op, cmd: CmdId, top: bool, rm: Option<&mut ReactiveMut<CA>>)
 {
-    let mut issued = Issued{ op, payload: None, new_actor: None, token: None, issue_ok: true };
+    // body-time accessors need the issuing system's own ReactiveMut; without one they degrade to apply-time access
+    let op = match (op, rm.is_some()) { (Op::MutateNow(e, how), false) => Op::Mutate(Comp::A, e, how), (o, _) => o };
+    let mut issued = Issued{ op, payload: None, new_actor: None, token: None, issue_ok: true, value: None };
 
     // allocate ids first so that the record precedes every effect
     match op
@@ -508,6 +510,30 @@ pub fn issue_op(c: &mut Commands, op: Op, cmd: CmdId, top: bool)
                     Comp::B => w.syscall((e, how), mutate_sys::<CB>),
                 }
             });
+        }
+        Op::MutateNow(e, how) =>
+        {
+            let rm = rm.unwrap();
+            let ent = with_ctx(|x| x.ents[e as usize]);
+            // the marker goes first so that it precedes the trigger command the accessor queues
+            c.queue(marker(cmd));
+            match how
+            {
+                How::GetMut =>
+                {
+                    match rm.get_mut(c, ent) { Ok(v) => { v.0 ^= 1; issued.issue_ok = true; } Err(_) => { issued.issue_ok = false; } }
+                }
+                How::SetIfNeq(v) =>
+                {
+                    let old = rm.set_if_neq(c, ent, CA(v));
+                    issued.issue_ok = old.is_some();
+                    issued.value = Some(old.map(|o| o.0 as i16).unwrap_or(-1));
+                }
+                How::NoReact(v) => { if let Ok(x) = rm.get_noreact(ent) { x.0 = v; } issued.issue_ok = false; }
+                How::Read => { let _ = rm.get(ent); issued.issue_ok = false; }
+                How::Trigger => { issued.issue_ok = false; }
+            }
+            record(issued);
         }
         Op::ResMutate(how) =>
         {
@@ -660,7 +686,8 @@ fn conv_mode(m: Mode) -> ReactorMode
 // Actor bodies
 
 /// Common body: record entry, obtain the script for this run, issue it, queue the end marker.
-fn actor_run(id: ActorId, c: &mut Commands, readers: Readers, local_ctr: u32, closure_ctr: u32, variant: Variant)
+fn actor_run(id: ActorId, c: &mut Commands, readers: Readers, local_ctr: u32, closure_ctr: u32, variant: Variant,
+    mut rm: Option<&mut ReactiveMut<CA>>)
 {
     // run id
     let (rid, over_cap) = with_ctx(|x| {
@@ -692,7 +719,7 @@ fn actor_run(id: ActorId, c: &mut Commands, readers: Readers, local_ctr: u32, cl
                     None => x.scripts.push((rid, vec![op])),
                 }
             });
-            issue_op(c, op, CmdId{ by: Issuer::Run(rid), idx }, false);
+            issue_op(c, op, CmdId{ by: Issuer::Run(rid), idx }, false, rm.as_deref_mut());
             idx += 1;
         }
     }
@@ -713,16 +740,16 @@ fn actor_run(id: ActorId, c: &mut Commands, readers: Readers, local_ctr: u32, cl
 
 /// All ordinary actors are instances of this one closure type.
 pub fn plain_actor(id: ActorId, erring: bool, take: bool)
-    -> impl FnMut(Commands, AllReaders, Local<u32>) -> DropErr + Send + Sync + 'static
+    -> impl FnMut(Commands, AllReaders, Local<u32>, ReactiveMut<CA>) -> DropErr + Send + Sync + 'static
 {
     let canary = Canary(id);
     let mut closure_ctr = 0u32;
-    move |mut c: Commands, mut r: AllReaders, mut local: Local<u32>| -> DropErr
+    move |mut c: Commands, mut r: AllReaders, mut local: Local<u32>, mut rm: ReactiveMut<CA>| -> DropErr
     {
         let _keep = &canary;
         let (readers, held) = sample_readers(&mut r, take);
         let variant = if erring { Variant::Erring } else if take { Variant::Plain } else { Variant::NoTake };
-        actor_run(id, &mut c, readers, *local, closure_ctr, variant);
+        actor_run(id, &mut c, readers, *local, closure_ctr, variant, Some(&mut rm));
         drop(held);
         *local += 1;
         closure_ctr += 1;
@@ -731,7 +758,7 @@ pub fn plain_actor(id: ActorId, erring: bool, take: bool)
     }
 }
 
-pub fn erring_actor(id: ActorId) -> impl FnMut(Commands, AllReaders, Local<u32>) -> DropErr + Send + Sync + 'static
+pub fn erring_actor(id: ActorId) -> impl FnMut(Commands, AllReaders, Local<u32>, ReactiveMut<CA>) -> DropErr + Send + Sync + 'static
 {
     plain_actor(id, true, true)
 }
@@ -750,7 +777,7 @@ pub fn exclusive_actor(id: ActorId)
             sample_readers(&mut r, true)
         };
         let mut c = world.commands();
-        actor_run(id, &mut c, readers, *local, closure_ctr, Variant::Exclusive);
+        actor_run(id, &mut c, readers, *local, closure_ctr, Variant::Exclusive, None);
         drop(held);
         *local += 1;
         closure_ctr += 1;
@@ -816,17 +843,29 @@ fn top_level(app: &mut App, op: Op, by: Issuer, idx: u16, update: bool)
     let world = app.world_mut();
     {
         let mut c = world.commands();
-        issue_op(&mut c, op, CmdId{ by, idx }, true);
+        issue_op(&mut c, op, CmdId{ by, idx }, true, None);
     }
     world.flush();
     if update { app.update(); }
     quiescent(app.world_mut());
 }
 
+/// Frame mode: a plain Bevy system of the `Update` schedule that issues the operation placed in slot `I`.
+fn slot_system<const I: usize>(mut c: Commands)
+{
+    let op = with_ctx(|x| x.slots.get_mut(I).and_then(|s| s.take()));
+    if let Some((op, idx)) = op { issue_op(&mut c, op, CmdId{ by: Issuer::Top, idx }, true, None); }
+}
+
 fn run_program(cfg: &Arc<Config>)
 {
     let mut app = App::new();
     app.add_plugins(ReactPlugin);
+    if let Some((_, chained)) = cfg.frame
+    {
+        if chained { app.add_systems(Update, (slot_system::<0>, slot_system::<1>, slot_system::<2>).chain()); }
+        else { app.add_systems(Update, (slot_system::<0>, slot_system::<1>, slot_system::<2>)); }
+    }
     app.world_mut().insert_react_resource(RA(0));
 
     // entities
@@ -869,6 +908,32 @@ fn run_program(cfg: &Arc<Config>)
         with_ctx(|x| { x.mark_used(op); x.tops.push(*op); });
         top_level(&mut app, *op, Issuer::Top, idx, cfg.update_after_top);
         idx += 1;
+    }
+    // frame mode: chosen ops are issued by Update systems, one App::update() per frame
+    if let Some((size, _)) = cfg.frame
+    {
+        for f in 0..cfg.max_top
+        {
+            let mut any = false;
+            with_ctx(|x| x.slots = vec![None, None, None]);
+            for sl in 0..size.min(3)
+            {
+                let op = with_ctx(|x| {
+                    let alphabet = x.cfg.top.clone();
+                    x.choose_op(&alphabet, Where::Top((f * 3 + sl) as u16))
+                });
+                let Some(op) = op else { break };
+                with_ctx(|x| { x.tops.push(op); x.slots[sl as usize] = Some((op, idx)); });
+                idx += 1;
+                any = true;
+            }
+            if !any { break; }
+            app.update();
+            quiescent(app.world_mut());
+        }
+        push(TEv::Value{ what: "teardown".into(), value: 0 });
+        drop(app);
+        return;
     }
     // chosen top-level ops
     for k in 0..cfg.max_top
